@@ -166,6 +166,45 @@ def _closed_forms(ctx: Ctx) -> None:
     ctx.floor('C18.R3', 60)
 
 
+def _epsilon_scaling(ctx: Ctx) -> None:
+    """C18.R4: in a variant the error term enters every formula divided by the scale parameter (when there is one)"""
+    prog = ctx.prog
+    base = prog.cls('mdcev.mdcev', 'Mdcev')
+    n = 0
+    for c in sorted(prog.subclasses(base), key=lambda z: z.name):
+        if not any(unparse(x) == 'self.scale_parameter' for m in c.methods.values() for x in ast.walk(m.node) if isinstance(x, ast.Attribute)):
+            continue
+        per = {}
+        for name, m in c.methods.items():
+            eps = {p for p in m.positional_params() if p in ('epsilon', 'unscaled_epsilon')}
+            if not eps:
+                continue
+            for _ in range(3):
+                for a in walk_no_nested(m.node):
+                    if isinstance(a, ast.Assign) and len(a.targets) == 1 and isinstance(a.targets[0], ast.Name) and any(isinstance(x, ast.Name) and x.id in eps for x in ast.walk(a.value)) \
+                            and not any(isinstance(x, ast.Call) and call_name(x) not in ('float',) for x in ast.walk(a.value)):
+                        eps.add(a.targets[0].id)
+
+            def is_eps(e):
+                return isinstance(e, ast.Name) and e.id in eps
+
+            scale = lambda e: any(unparse(x) == 'self.scale_parameter' for x in ast.walk(e))  # noqa: E731
+            scaled = any((isinstance(x, ast.AugAssign) and isinstance(x.op, ast.Div) and is_eps(x.target) and scale(x.value)) or
+                         (isinstance(x, ast.BinOp) and isinstance(x.op, ast.Div) and is_eps(x.left) and scale(x.right)) for x in walk_no_nested(m.node))
+            arith = [x for x in walk_no_nested(m.node) if (isinstance(x, ast.BinOp) and isinstance(x.op, (ast.Add, ast.Sub, ast.Mult)) and (is_eps(x.left) or is_eps(x.right))) or
+                     (isinstance(x, ast.AugAssign) and isinstance(x.op, (ast.Add, ast.Sub)) and is_eps(x.value))]
+            if arith:
+                per[name] = (scaled, m, arith[0])
+        sibs = sorted(k for k, v in per.items() if v[0])
+        for name, (scaled, m, where) in sorted(per.items()):
+            n += 1
+            ctx.add('C18.R4', f'{c.name}.{name}:epsilon/scale', scaled, (m.file, where.lineno),
+                    f'{name}: the error term is divided by the scale parameter before it enters `{unparse(where)[:60]}`' if scaled else
+                    f'{name}: the error term enters `{unparse(where)[:60]}` without being divided by the scale parameter, while {", ".join(sibs) or "the other formulas"} of {c.name} use epsilon / scale: '
+                    'with a scale different from 1 this method disagrees with the utility, its derivative and the optimal consumption', 'scale', positive=True)
+    ctx.floor('C18.R4', 12)
+
+
 def run(ctx: Ctx) -> None:
     prog = ctx.prog
     ctx.rule('C18.R1', 'label / position typing over the five MDCEV modules: every integer-valued expression is an alternative label (dictionary key, the_id, element of '
@@ -173,6 +212,8 @@ def run(ctx: Ctx) -> None:
              'unknown; a label-keyed container is subscripted with labels, a positional array (epsilon, consumptions, x, bounds) with positions, labels are compared '
              'with labels; a label-keyed dictionary is flattened to a positional array only in the order of index_to_key; key_to_index is the inverse of index_to_key')
     ctx.rule('C18.R2', 'caller-owned arrays: a parameter annotated as numpy array (the vector of error terms) is never modified in place')
+    ctx.rule('C18.R4', 'sibling agreement on the error term: in every MDCEV variant with a scale parameter, each method that does arithmetic on epsilon (utility, derivative, optimal consumption, '
+             'bounds on the dual variable) first divides it by the scale parameter')
     ctx.rule('C18.R3', 'closed forms agree (formula normal form): for every MDCEV variant and every configuration (gamma present or not, scale present or not, prices '
              'present or not) the numeric utility equals the symbolic utility, the numeric derivative is the derivative of that utility with respect to the consumption, '
              'and the closed-form optimal consumption, substituted into the derivative, gives back the dual variable - at a generic interior point (boundary guards '
@@ -184,6 +225,19 @@ def run(ctx: Ctx) -> None:
         for f in m.all_functions:
             st = Sorts(f)
             for n in walk_no_nested(f.node):
+                # a label or a position used as a truth value: 0 is a legitimate label and a legitimate position
+                tests = []
+                if isinstance(n, (ast.If, ast.IfExp, ast.While, ast.Assert)):
+                    tests = [n.test]
+                elif isinstance(n, ast.BoolOp):
+                    tests = list(n.values)
+                elif isinstance(n, ast.UnaryOp) and isinstance(n.op, ast.Not):
+                    tests = [n.operand]
+                for t in tests:
+                    if st.sort(t) in (L, P):
+                        ctx.add('C18.R1', f'{f.qualname}:truth({unparse(t)})', False, (f.file, getattr(t, 'lineno', f.line)),
+                                f'{unparse(t)} ({st.sort(t)}) is tested for truth: the {st.sort(t)} 0 counts as absent (an alternative labelled 0, or in first position, is treated as if there were none); the test for absence is `is None`',
+                                'truth', positive=True)
                 if isinstance(n, ast.Subscript):
                     cs = st.sort(n.value)
                     is_ = st.sort(n.slice)
@@ -242,6 +296,7 @@ def run(ctx: Ctx) -> None:
     if n_sub < 15 or n_cmp < 2:
         raise AnalysisError(f'C18.R1: only {n_sub} typed subscripts / {n_cmp} typed comparisons found in the MDCEV modules')
     _closed_forms(ctx)
+    _epsilon_scaling(ctx)
     M = prog.cls('mdcev.mdcev', 'Mdcev')
     init = M.methods['__init__']
     from ..pattern import find as _find
